@@ -266,7 +266,7 @@ class Point(object):
         """
 
         # Works only for power=2
-        assert power == 2
+        assert isinstance(power, (int, float)) and power == 2
 
         # Return the inner product of a point by itself
         return self.__rmul__(self)
